@@ -18,9 +18,9 @@ EXTENDS Integers, Sequences, FiniteSets, TLC, Json, IOUtils
 MetaV  == {"nil", "empty", "full"}
 NlV    == {"nil", "empty", "nodes"}
 RootsV == {"none", "one", "many", "dangling", "dup", "emptyid"}
-NodesV == {"plain", "nilnode", "dupid", "emptyid", "badenum", "rich"}
-EdgesV == {"none", "tree", "cycle", "cycle-tail", "island-cycle", "deps-cycle", "dup-deps", "dag", "dangling", "niledge", "dupedge", "emptyto", "selfloop"}
-DtV    == {"none", "typed", "nilall", "other-nilname", "other-named", "runtime", "badenum"}
+NodesV == {"plain", "nilnode", "dupid", "emptyid", "badenum", "negenum", "rich"}
+EdgesV == {"none", "tree", "cycle", "cycle-tail", "island-cycle", "deps-cycle", "dup-deps", "dag", "dangling", "niledge", "dupedge", "emptyto", "selfloop", "negtype"}
+DtV    == {"none", "typed", "nilall", "other-nilname", "other-named", "runtime", "badenum", "negenum"}
 ExtraV == {"none", "nilperson", "nilextref", "niltool", "nilauthor", "nildoctype"}
 Shapes == [meta : MetaV, nl : NlV, roots : RootsV, nodes : NodesV, edges : EdgesV, dt : DtV, extra : ExtraV]
 \* shapes reachable by decoding protobuf wire bytes have no nil elements inside repeated fields
